@@ -377,6 +377,10 @@ func visitInstr(fr *frame, instr ssa.Instruction) continuation {
 		}
 		fr.env[instr] = sl[:l]
 
+	case *ssa.MakeChan:
+		ex.nextObj++
+		fr.env[instr] = chanValue{id: ex.nextObj}
+
 	case *ssa.MakeMap:
 		fr.env[instr] = makeMap(instr.Type().Underlying().(*types.Map).Key())
 
